@@ -3,7 +3,7 @@
 From Coq Require Extraction.
 From Coq Require Import ExtrOcamlBasic.
 From RainVerif Require Import Params.
-From RainVerif.model Require Import Bytes Crc Log LogScript Bloom FilterBlock Key Block Table TableSpec Version Lsm LsmSpec DbSpec LockOwner LockPhases Work TableFile Cache Pick Names Cursor Conc Codec Gc WalModel Recover Proto Faults.
+From RainVerif.model Require Import Bytes Crc Log LogScript Bloom FilterBlock Key Block Table TableSpec Version Lsm LsmSpec DbSpec LockOwner LockPhases LockFd Work TableFile Cache Pick Names Cursor Conc Codec Gc WalModel Recover Proto Faults.
 
 Extraction Language OCaml.
 
@@ -18,7 +18,7 @@ Extraction "../ocaml/model.ml"
   overlapping_inputs pick_level_for_memtable_output finalize_inputs is_trivial_move is_base_level_for_key
   apply_edit files_of lsm_step lsm_init db_get_at visible shape_ok all_entries compact_entries inputs_closed version_wf
   spec_run spec_init contents user_keys lsm_wf_b
-  LockOwner.step world_init pstep pworld_init
+  LockOwner.step world_init pstep pworld_init fstep fworld_init
   d_run d_new iter_children m_run m_new cursor_run
   cstep spawn c_init pc_of spec_get
   batch_encode batch_decode vchange_encode vchange_decode vc_empty
